@@ -197,6 +197,15 @@ func C20(run *core.Run) {
 				rec.Header().Get("Content-Type") != "application/nostr+json" || rec.Header().Get("Access-Control-Allow-Origin") != "*" {
 				run.Violate("doc:served-differs", fmt.Sprintf("served %s headers %v (err %v)", rec.Body.String(), rec.Header(), err), map[string]any{"doc": d})
 			}
+			// the configuration changes between two requests: the second answer shows the new one
+			doc.Name = doc.Name + " (renamed)"
+			doc.SupportedNIPs = append(doc.SupportedNIPs, 99)
+			rec2 := httptest.NewRecorder()
+			(&mocrelay.ServeMux{NIP11: doc}).ServeHTTP(rec2, req)
+			var served2 mocrelay.NIP11
+			if err := json.Unmarshal(rec2.Body.Bytes(), &served2); err != nil || !reflect.DeepEqual(doc, &served2) {
+				run.Violate("doc:served-stale-after-config-change", fmt.Sprintf("after changing the configured document the served one is %s", rec2.Body.String()), map[string]any{"doc": d})
+			}
 		}
 		if i == 3 {
 			run.Sample(map[string]any{"doc_shape": d, "json": string(b)})
